@@ -21,12 +21,13 @@ def _colat_of_R(proj, R):
     """native co-latitude gamma = 90deg - theta from the zenithal radius (radians)"""
     if proj == "TAN":
         return np.arctan(R)
+    # outside the domain of the projection (beyond the horizon / the antipode) there is no sky position: NaN
     if proj == "SIN":
-        return np.arcsin(np.clip(R, -1, 1))
+        return np.where(R <= 1, np.arcsin(np.clip(R, -1, 1)), np.nan)
     if proj == "ARC":
-        return R
+        return np.where(R <= np.pi, R, np.nan)
     if proj == "ZEA":
-        return 2 * np.arcsin(np.clip(R / 2, -1, 1))
+        return np.where(R <= 2, 2 * np.arcsin(np.clip(R / 2, -1, 1)), np.nan)
     if proj == "STG":
         return 2 * np.arctan(R / 2)
     raise ValueError(proj)
